@@ -159,6 +159,34 @@ add("own_drop", "life::h_drop::<{N}>()", ["C02"], Q3, T3, fn="Drop::drop for Map
 add("own_from_iter", "life::h_from_iter::<{N}, {L}>()", ["C02", "C16"], [{"N": 1, "L": 2}, {"N": 2, "L": 3}], [{"N": 2, "L": 4}, {"N": 3, "L": 4}],
     unwind="max(N,L)+2", fn="FromIterator::from_iter for Map", shape="S_tok")
 
+# ------------------------------------------------------------------ C03
+for sh, K, V in (("u8", "u8", "u8"), ("id", "Key", "u8"), ("zst", "()", "()")):
+    for i, op in enumerate(("insert", "insert_key_value", "entry_or_insert", "entry_or_insert_with", "entry_or_insert_with_key",
+                            "entry_or_default", "vacant_insert")):
+        ns_q = N_(0) if sh == "zst" else (N_(0, 1, 2) if i < 2 else N_(0, 2))
+        ns_t = N_(0) if sh == "zst" else T3
+        add("c03_full_%s_%s" % (op, sh), "c03::h_full_map::<%s, %s, {N}>(%d)" % (K, V, i), ["C03"], ns_q, ns_t, profile="both",
+            expect=PANIC(*FULL_PANIC), fn="Map::" + op.replace("entry_", "entry(..).").replace("vacant_insert", "VacantEntry::insert") + " on a full map (must panic)", shape="S_" + sh)
+    if sh != "zst":
+        for i, op in enumerate(("insert", "insert_key_value", "checked_insert", "entry_or_insert")):
+            add("c03_replace_%s_%s" % (op, sh), "c03::h_full_replace::<%s, %s, {N}>(%d)" % (K, V, i), ["C03", "C12"], N_(1, 2), N_(1, 2, 3), profile="both",
+                fn="Map::%s replacing a present key on a full map" % op, shape="S_" + sh)
+for sh, T in (("u8", "u8"), ("id", "Key")):
+    for i, op in enumerate(("insert", "replace", "extend", "extend_ref")):
+        if op == "extend_ref" and sh == "id":
+            pass
+        add("c03_full_set_%s_%s" % (op, sh), "c03::h_full_set::<%s, {N}>(%d)" % (T, i), ["C03"], N_(0, 2), T3, profile="both",
+            expect=PANIC(*FULL_PANIC), fn="Set::%s on a full set (must panic)" % op, shape="S_" + sh)
+add("c03_full_from_iter", "c03::h_full_from_iter::<{N}, {L}>()", ["C03", "C16"], [{"N": 0, "L": 1}, {"N": 1, "L": 2}, {"N": 2, "L": 3}], [{"N": 0, "L": 1}, {"N": 1, "L": 2}, {"N": 2, "L": 3}, {"N": 3, "L": 4}],
+    unwind="L+2", profile="both", expect=PANIC(*FULL_PANIC), fn="FromIterator::from_iter for Map with more distinct keys than N (must panic)", shape="S_u8")
+add("c03_full_set_from_iter", "c03::h_full_set_from_iter::<{N}, {L}>()", ["C03", "C16"], [{"N": 0, "L": 1}, {"N": 2, "L": 3}], [{"N": 0, "L": 1}, {"N": 1, "L": 2}, {"N": 2, "L": 3}, {"N": 3, "L": 4}],
+    unwind="L+2", profile="both", expect=PANIC(*FULL_PANIC), fn="FromIterator::from_iter for Set with more distinct elements than N (must panic)", shape="S_u8")
+for i, op in enumerate(("insert", "insert_key_value", "entry_or_insert")):
+    add("c03_full_tok_" + op, "c03::h_full_tok::<{N}>(%d)" % i, ["C03"], N_(0, 2), T3, profile="both", expect=PANIC(*FULL_PANIC),
+        fn="Map::%s on a full map: droppable at every callback before the panic" % op, shape="S_tok")
+add("c03_checked_full_tok", "c03::h_checked_full_tok::<{N}>()", ["C03", "C02"], Q3, T3, profile="both",
+    fn="Map::checked_insert rejected on a full map", shape="S_tok")
+
 
 def units_for(prop):
     return [u for u in UNITS if prop in u.props or "*" in u.props]
